@@ -248,18 +248,53 @@ def S_mod_exp(n, get_operands, claim="value"):
         Mv, Rv = nval(e, ml), nval(e, zl)
         if claim == "dom":
             return lt(0, Mv)
-        if n == 0:
-            return AND(dom, IMP(lt(0, Mv), eq(Rv, f"(mod 1 {Mv})")))
         Xv = nval(e, xl)
-        Xn = Xv if n == 1 else "(* " + " ".join([Xv] * n) + ")"
+        Xn = "1" if n == 0 else (Xv if n == 1 else "(* " + " ".join([Xv] * n) + ")")
         goal = AND(dom, IMP(lt(0, Mv), eq(Rv, f"(mod {Xn} {Mv})")))
-        if n >= 2 and not any(isinstance(a, int) for a in list(xl) + list(ml) + list(zl)):
+        if not any(isinstance(a, int) for a in list(xl) + list(ml) + list(zl)):
             try:
-                _modexp_hints(e, n, xl, ml, zl, Xv, Mv, Rv, Xn)
+                if n >= 2:
+                    _modexp_hints(e, n, xl, ml, zl, Xv, Mv, Rv, Xn)
+                else:
+                    _single_division_hint(e, n, xl, ml, zl, Mv, Rv, Xn)
             except Exception as ex:  # hints are optional: without them the obligation is simply harder
                 e.lines.append(f"; mod_exp hints not generated: {ex!r}"[:300].replace("\n", " "))
         return goal
     return spec
+
+
+def _euclid_lemma(e):
+    if not getattr(e, "_cbig_l2", False):
+        e._cbig_l2 = True
+        e.side.append(("euclid-uniqueness", ["(declare-const A Int)", "(declare-const K Int)", "(declare-const M Int)", "(declare-const r Int)"],
+                       "(=> (and (= A (+ (* K M) r)) (<= 0 r) (< r M)) (= r (mod A M)))"))
+
+
+def _single_division_hint(e, n, xl, ml, zl, Mv, Rv, An):
+    """n in {0, 1}: when the implementation reduces 1 resp. x modulo m by one division, the quotient cells
+    are the ones multiplied with every limb of m; `out = A mod m` then follows from A = q*m + out, out < m."""
+    lb = LB(e)
+    pos, hv, _ = _atom_info(e)
+    X = sum(hv[a] << (lb * i) for i, a in enumerate(xl))
+    M = sum(hv[a] << (lb * i) for i, a in enumerate(ml))
+    if M == 0:
+        return
+    A = 1 if n == 0 else X
+    io = set(list(xl) + list(ml) + list(zl))
+    pt = partners(e)
+    qc = sorted([a for a in pt if a not in io and all(m_ in pt[a] for m_ in ml)], key=lambda a: pos.get(a, (1 << 30, 0)))
+    if not qc:
+        return
+    qw = windows(e, qc, [A // M])
+    if qw is None:
+        raise RuntimeError("quotient cells not located")
+    PSqm, Vq, Vm = hint_product_identity(e, qw[0], list(ml))
+    _euclid_lemma(e)
+    e.lines.append(f"(assert (=> (and (= {An} (+ (* {A_(Vq)} {Mv}) {Rv})) (<= 0 {Rv}) (< {Rv} {Mv})) (= {Rv} (mod {An} {Mv}))))")
+
+
+def A_(x):
+    return str(x) if isinstance(x, int) else x
 
 
 def _modexp_hints(e, n, xl, ml, zl, Xv, Mv, Rv, Xn):
@@ -324,11 +359,69 @@ def _modexp_hints(e, n, xl, ml, zl, Xv, Mv, Rv, Xn):
     decls = ["(declare-const X Int)", "(declare-const M Int)"] + [f"(declare-const Q{s} Int)" for s in range(len(steps))] + \
             [f"(declare-const T{s} Int)" for s in range(len(steps))]
     e.side.append((f"modexp-lifted-identity-n{n}", decls, f"(=> (and {' '.join(geqs)}) (= {gXn} (+ (* {gK} M) T{len(steps) - 1})))"))
-    if not getattr(e, "_cbig_l2", False):
-        e._cbig_l2 = True
-        e.side.append(("euclid-uniqueness", ["(declare-const A Int)", "(declare-const K Int)", "(declare-const M Int)", "(declare-const r Int)"],
-                       "(=> (and (= A (+ (* K M) r)) (<= 0 r) (< r M)) (= r (mod A M)))"))
+    _euclid_lemma(e)
     msym = dict(X=Xv, M=Mv, Q=[nm[2] for nm in names], T=[nm[3] for nm in names])
     meqs, mK, mXn = build(msym)
     # composition of the two proved lemmas (lifted identity, then uniqueness of Euclidean division with A = X^n, K)
     e.lines.append(f"(assert (=> (and {' '.join(meqs)} (<= 0 {Rv}) (< {Rv} {Mv})) (= {Rv} (mod {Xn} {Mv}))))")
+
+
+# ------------------------------------------------------------------------------------------------
+# entries whose extraction panics inside the repository's code
+# ------------------------------------------------------------------------------------------------
+
+def split_panicking(run, family, ents):
+    """cengine.run_family reports a panic of the real synthesis as VIOLATION `:honest-panics` but then also
+    registers a keygen-comparison obligation that cannot be decided (it needs the same extraction). Entries
+    flagged `maypanic` (degenerate shapes) are therefore extracted once up front:
+      * a panic inside /repo code  -> VIOLATION obligation here (same id / key / replay payload as run_family
+        would produce), entry left out;
+      * the library refuses the shape with an error (synthesis returns Err, no circuit) -> ground obligation
+        HOLDS "refused with an error" (a clean refusal is an acceptable treatment of a degenerate shape; what
+        is not acceptable is a panic or a silently wrong bound), entry left out;
+      * otherwise the entry is returned unchanged and decided as usual."""
+    import json, os, re as _re, subprocess
+    from . import core, cengine
+    keep = []
+    only = getattr(run, "only", None)
+    for ent in ents:
+        if not ent.get("maypanic"):
+            keep.append(ent)
+            continue
+        oid = f"{family}/{ent['op']}[{cengine.pstr(ent['params'])}]"
+        if only and only not in oid:
+            keep.append(ent)
+            continue
+        args = cengine.cx_args(family, ent["op"], ent["params"], ent["ins"], ent["k"])
+        p = subprocess.run([cengine.CX] + args, capture_output=True, text=True)
+        refused = None
+        if p.returncode == 0:
+            try:
+                d = json.loads(p.stdout)
+                if d.get("no_circuit"):
+                    refused = str(d.get("extra", {}).get("synth_err") or d.get("extra", {}).get("offcircuit_err"))
+            except Exception:
+                pass
+            if refused is None:
+                keep.append(ent)
+                continue
+        mk = lambda key: core.Ob(oid, "C", ent.get("what") or f"constraints emitted by {ent['op']} imply its specification for every assignment",
+                                 functions=ent.get("functions") or [f"{family}::{ent['op']}"], bound=f"k={ent['k']} params={cengine.pstr(ent['params'])}", key=key)
+        m_ = _re.search(r"panicked at ([^\s:]+):(\d+)", p.stderr)
+        if p.returncode != 0 and m_ and os.path.abspath(m_.group(1)).startswith(os.path.abspath(core.REPO) + "/"):
+            ob = mk(f"{family}/{ent['op']}:honest-panics")
+            run.add(ob)
+            path = run.write_replay(ob, dict(kind="honest-panics", cx=args))
+            ob.set(core.VIOLATION, "the real synthesis/witness generation panics on admissible inputs: " + p.stderr[p.stderr.find("panicked at"):][:400], replay=path)
+        elif refused is not None or (p.returncode != 0 and "Synthesis(" in p.stderr):
+            ob = mk(f"{family}/{ent['op']}")
+            run.add(ob)
+            ob.nontrivial = False
+            msg = refused or p.stderr[p.stderr.find("Synthesis("):][:200]
+            ob.set(core.HOLDS, f"degenerate shape refused by the library with an error (no panic, no circuit): {msg[:200]}")
+        else:
+            ob = mk(f"{family}/{ent['op']}")
+            run.add(ob)
+            ob.set(core.INCONCLUSIVE, f"extraction failed: {p.stderr[-400:]}")
+        run.log(f"{ob.status:12s} {oid} {ob.detail[:200]}")
+    return keep
